@@ -36,6 +36,8 @@ Dims == [
   interPki |-> <<"A", "B">>,
   rootPki  |-> <<"A", "B">>,
   pool     |-> <<"A", "B", "AB", "empty", "nil">>,
+  rotVia   |-> <<"pool", "files", "inline", "mixed", "fileEmpty", "inlineNonPem">>,   \* how the caller builds the pool: directly, or with
+                                               \* RootOfTrustToOptions from bundle files / inline PEM / both / an empty file / a non-PEM string
   leafRole |-> <<"pck", "wrongCN", "pckByRoot", "caAsLeaf", "tcbSignByRoot">>,
   leafId   |-> <<"l1", "l2">>,                 \* which of the platform's two PCK leaves the chain carries (both honest)
   interSlot |-> <<"inter", "root">>,           \* certificate carried in the intermediate position of the chain
@@ -115,8 +117,9 @@ Opts == { [gc |-> b.gc, cr |-> b.cr, now |-> n, entry |-> e] :
             b \in OptBase, n \in NowVals, e \in {"raw", "msg"} }
 \* the wall clock cannot realise a time fault
 Realisable(w, o) == /\ (o.now = "unset" => w.time = "none")
+                    /\ (w.rotVia # "pool" => w.pool # "empty")   \* a root-of-trust message cannot say "trust nothing"
                     /\ (w.src = "intel" => /\ o.now = "set"                       \* judged at its reference time
-                                           /\ \A d \in DimNames \ {"src", "pool"} : w[d] = Baseline[d])
+                                           /\ \A d \in DimNames \ {"src", "pool", "rotVia"} : w[d] = Baseline[d])
 
 (* ---------------------------------------------------------------------------------- *)
 (* Helpers over a world.                                                                 *)
@@ -177,6 +180,7 @@ N01(w, o) == /\ w.qsig = "ok" /\ w.ak = "ok" /\ w.mut = "none"
 
 \* C02: leaf is a PCK-role certificate that chains through the carried intermediate to the pool
 N02(w, o) == /\ w.leafRole = "pck" /\ w.interSlot = "inter"
+             /\ w.rotVia \notin {"fileEmpty", "inlineNonPem"}        \* an unusable root-of-trust configuration trusts nothing
              /\ (w.src = "gen" => w.interPki = Home(w))
              /\ InPool(Home(w), w)
 
@@ -210,7 +214,7 @@ Necessary(w, o) == N01(w, o) /\ N02(w, o) /\ N03(w, o) /\ N04(w, o) /\ N05(w, o)
 \* C11: the honest worlds (baseline and its honest variants) must be accepted
 Honest(w, o) ==
   /\ N01(w, o)
-  /\ w.leafRole = "pck" /\ w.interSlot = "inter" /\ InPool(Home(w), w)
+  /\ w.leafRole = "pck" /\ w.interSlot = "inter" /\ InPool(Home(w), w) /\ w.rotVia \in {"pool", "files", "inline", "mixed"}
   /\ (w.src = "gen" => w.interPki = Home(w) /\ w.rootPki = Home(w))
   /\ w.nBlocks = "n3" /\ w.trailer \in {"none", "nul"} /\ w.pemType = "cert" /\ w.interCN = "platform"
   /\ ~(o.cr /\ ~o.gc)
@@ -235,7 +239,7 @@ Gating(o, fs) == /\ ~o.gc => fs = <<>>
 (* or "either" where an unlogged detail of the realisation decides (e.g. which header    *)
 (* bit was flipped).  Modelled deviations from the properties are marked DEV.            *)
 
-Stages == <<"check", "extract", "ca", "fetchTcb", "fetchQe", "fetchPckCrl", "fetchRootCrl",
+Stages == <<"rot", "check", "extract", "ca", "fetchTcb", "fetchQe", "fetchPckCrl", "fetchRootCrl",
             "chain", "collateral", "tcbinfo", "qeidentity", "quote">>
 
 HdrParses(h) == h \in {"ok", "swapped"}      \* headerToIssuerChain: exactly one value, two PEM blocks, nothing after
@@ -252,7 +256,9 @@ ResponseOk(w, o, s, ov, al, ex, h, revoked) ==
               /\ w.rootCrlRev # revoked)
 
 StageResult(st, w, o) ==
-  CASE st = "check" ->
+  CASE st = "rot" ->                                         \* RootOfTrustToOptions refuses bundles without certificates
+         IF w.rotVia \in {"fileEmpty", "inlineNonPem"} THEN "fail" ELSE "ok"
+    [] st = "check" ->
          IF w.mut = "header" THEN "either" ELSE "ok"        \* a header bit may hit version / key type / TEE type
     [] st = "extract" ->
          IF w.nBlocks = "n3" /\ w.trailer \in {"none", "nul"} /\ w.pemType = "cert" THEN "ok" ELSE "fail"
@@ -366,6 +372,7 @@ FetchRootCrl ==
                      /\ IF DpSeq(w)[dp] = "ok" THEN pc' = pc + 1 /\ UNCHANGED <<w, o, verdict, dp>>
                         ELSE dp' = dp + 1 /\ UNCHANGED <<w, o, pc, verdict>>
 
+RootOfTrust     == Plain("rot")
 CheckQuote      == Plain("check")
 ExtractChain    == Plain("extract")
 ExtractCa       == Plain("ca")
@@ -380,7 +387,7 @@ VerifyQuote     == Plain("quote")
 Accept == /\ verdict = "none" /\ pc = Len(Stages) + 1
           /\ verdict' = "accept" /\ UNCHANGED <<w, o, pc, fetches, dp>>
 
-Next == \/ CheckQuote \/ ExtractChain \/ ExtractCa \/ FetchTcbInfo \/ FetchQeIdentity \/ FetchPckCrl \/ FetchRootCrl
+Next == \/ RootOfTrust \/ CheckQuote \/ ExtractChain \/ ExtractCa \/ FetchTcbInfo \/ FetchQeIdentity \/ FetchPckCrl \/ FetchRootCrl
         \/ VerifyChain \/ VerifyCollateral \/ VerifyTcbInfo \/ VerifyQeIdentity \/ VerifyQuote \/ Accept
 
 Spec == Init /\ [][Next]_vars
